@@ -392,6 +392,12 @@ class Inliner:
         lp = self._while_let_loop(out)
         if lp is not None:
             return lp
+        lp = self._match_as_try(out)
+        if lp is not None:
+            return lp
+        lp = self._not_any_not(out)
+        if lp is not None:
+            return lp
         if out.get("k") == "Try":
             inner = out.get("e")
             while isinstance(inner, dict) and inner.get("k") in ("DropTemps", "Paren") and isinstance(inner.get("e"), dict):
@@ -401,6 +407,75 @@ class Inliner:
         if out.get("k") == "Path" and out.get("res") == "Def" and out.get("def") in self.unknown:
             out["_maybe_value_use"] = True
         return out
+
+    @staticmethod
+    def _not_any_not(node):
+        """`!it.any(|x| !p)` is `it.all(|x| p)`, and `!it.all(|x| !p)` is `it.any(|x| p)`"""
+        if node.get("k") != "Unary" or node.get("op") != "Not":
+            return None
+        c = node.get("e")
+        while isinstance(c, dict) and c.get("k") in ("DropTemps", "Paren"):
+            c = c.get("e")
+        if not (isinstance(c, dict) and c.get("k") == "MethodCall" and c.get("name") in ("any", "all") and len(c.get("args") or []) == 1):
+            return None
+        clo = c["args"][0]
+        if clo.get("k") != "Closure":
+            return None
+        b = clo.get("body")
+        while isinstance(b, dict) and ((b.get("k") == "Block" and not b.get("stmts") and b.get("expr") is not None) or b.get("k") in ("DropTemps", "Paren")):
+            b = b.get("expr") if b.get("k") == "Block" else b.get("e")
+        if not (isinstance(b, dict) and b.get("k") == "Unary" and b.get("op") == "Not"):
+            return None
+        nclo = dict(clo)
+        nclo["body"] = b["e"]
+        out = dict(c)
+        out["name"] = "all" if c["name"] == "any" else "any"
+        out["args"] = [nclo]
+        for k_ in ("def", "resolved"):
+            if isinstance(out.get(k_), str):
+                out[k_] = out[k_].replace("::any", "::" + out["name"]) if c["name"] == "any" else out[k_].replace("::all", "::" + out["name"])
+        return out
+
+    @staticmethod
+    def _match_as_try(node):
+        """`match e { Ok(x) => x, Err(err) => return Err(err) }` (or the Some / None form) is `e?` written out."""
+        if node.get("k") != "Match" or len(node.get("arms") or []) != 2:
+            return None
+
+        def unwrap(b):
+            while isinstance(b, dict) and ((b.get("k") == "Block" and not b.get("stmts") and b.get("expr") is not None and not b.get("label")) or b.get("k") in ("DropTemps", "Paren")):
+                b = b.get("expr") if b.get("k") == "Block" else b.get("e")
+            return b
+        good = bad = None
+        for a in node["arms"]:
+            if a.get("guard"):
+                return None
+            p = a["pat"]
+            if p.get("k") == "TupleStructPat" and p.get("variant") in ("Ok", "Some") and len(p.get("pats") or []) == 1 and p["pats"][0].get("k") == "Binding":
+                good = a
+            elif p.get("k") == "TupleStructPat" and p.get("variant") == "Err" and len(p.get("pats") or []) == 1 and p["pats"][0].get("k") == "Binding":
+                bad = a
+            elif p.get("variant") == "None":
+                bad = a
+        if good is None or bad is None:
+            return None
+        gb = unwrap(good["body"])
+        if not (isinstance(gb, dict) and gb.get("k") == "Path" and gb.get("id") == good["pat"]["pats"][0].get("id")):
+            return None
+        bb = unwrap(bad["body"])
+        if not (isinstance(bb, dict) and bb.get("k") == "Ret" and isinstance(bb.get("e"), dict)):
+            return None
+        r = unwrap(bb["e"])
+        if bad["pat"].get("variant") == "Err":
+            if not (r.get("k") == "Call" and (r.get("f") or {}).get("variant") == "Err" and len(r.get("args") or []) == 1):
+                return None
+            arg = unwrap(r["args"][0])
+            if not (arg.get("k") == "Path" and arg.get("id") == bad["pat"]["pats"][0].get("id")):
+                return None
+        else:
+            if not (r.get("k") == "Path" and r.get("variant") == "None"):
+                return None
+        return {"k": "Try", "e": node["scrut"], "span": node.get("span"), "ty": node.get("ty")}
 
     @staticmethod
     def _while_let_loop(node):
